@@ -348,6 +348,7 @@ type SpecFile struct {
 	Frozen     [][3]string // struct, field, props: written only on objects allocated by the writing function
 	Histories  [][3]string // two-state invariant over ghost accessors (expr with old()), props, file:line
 	Confined   [][4]string // function, allowed package variables (space separated), props, file:line
+	StructFields [][4]string // struct type, reviewed field names (space separated), props, file:line
 	Globals    [][3]string // inventory of package-level variables (space separated), props, file:line
 	MapRanges  [][4]string // root function, "func=count ..." inventory of range-over-map loops reachable from it, props, file:line
 	GlobalInvs [][2]string // facts about package-level variables (established by initialisation), file:line
@@ -509,6 +510,12 @@ func ParseSpecLines(sf *SpecFile, file string, lines []string, trusted bool) err
 			}
 			tf := strings.SplitN(fields[1], ".", 2)
 			sf.MapInvs = append(sf.MapInvs, [5]string{tf[0], tf[1], strings.TrimSpace(rest[len(fields[1]):]), strings.Join(tags, ","), l.at})
+		case "structfields":
+			// structfields[C14] interim a b c: struct T has no field besides these (each is accounted for by reset's contract)
+			if len(fields) < 3 {
+				return errf("structfields[props] T field ...")
+			}
+			sf.StructFields = append(sf.StructFields, [4]string{fields[1], strings.Join(fields[2:], " "), strings.Join(tags, ","), l.at})
 		case "globals":
 			// globals[C09] a b c: the package has no package-level variable besides these
 			sf.Globals = append(sf.Globals, [3]string{strings.Join(fields[1:], " "), strings.Join(tags, ","), l.at})
